@@ -236,6 +236,63 @@ func vkProbeFaultyLoad(t *testing.T, res *vResult, c *vkChain, beh, si int, o vk
 	}
 }
 
+// vkProbeReloadedWrite: the listing of a block's state after a restart during which a CHILD of that state is being built:
+// the state is handed out for modification (TrieState of its root, reloaded from the database because the restart emptied
+// the cache), keys under the listed prefix are written and deleted in it, and the block's own listing is what it was.
+func vkProbeReloadedWrite(t *testing.T, res *vResult, c *vkChain, beh, si int, o vkOp, p []byte, es string, expKeys []string, prefix []json.RawMessage) {
+	if vkProbes%4 != 1 {
+		return
+	}
+	hdr, err := c.bs.GetHeader(*c.block(o.B))
+	if err != nil {
+		t.Fatalf("VERIF-INFRA header of block %d: %v", o.B, err)
+	}
+	ss2, err := state.NewStorageState(c.db, c.bs, state.NewTries())
+	if err != nil {
+		t.Fatalf("VERIF-INFRA storage state after restart: %v", err)
+	}
+	sm2 := NewStateModule(nil, ss2, nil, nil)
+	root := hdr.StateRoot
+	var callErr error
+	var out StatePairResponse
+	pfx := vkHex(p)
+	pm := vTry(func() {
+		ts, err := ss2.TrieState(&root)
+		if err != nil {
+			callErr = err
+			return
+		}
+		_ = ts.Put(append(append([]byte{}, p...), 0x77, 0x01), []byte{0xee})
+		for i, hk := range expKeys {
+			k, derr := common.HexToBytes(hk)
+			if derr != nil || len(k) == 0 || i > 1 {
+				continue
+			}
+			if i == 0 {
+				_ = ts.Delete(k)
+			} else {
+				_ = ts.Put(k, []byte{0xdd, 0xdd})
+			}
+		}
+		callErr = sm2.GetPairs(nil, &StatePairRequest{Prefix: &pfx, Bhash: c.block(o.B)}, &out)
+	})
+	res.Case("Pairs-while-child-is-built", fmt.Sprint(len(expKeys)))
+	res.Cmp()
+	if pm != "" || callErr != nil {
+		res.Fail(beh, si, "Pairs", "result", es, fmt.Sprintf("err=%v panic=%s", callErr, pm), "C38/Pairs/parent-of-state-being-built/error", prefix)
+		return
+	}
+	got := map[string]string{}
+	for _, it := range out {
+		if pr, ok := it.([]string); ok && len(pr) == 2 {
+			got[pr[0]] = pr[1]
+		}
+	}
+	if gs := vkPairString(got); gs != es {
+		res.Fail(beh, si, "Pairs", "pairs", es, gs, "C38/Pairs/parent-of-state-being-built/keys-or-values", prefix)
+	}
+}
+
 func TestVerifKeyPaging(t *testing.T) {
 	res := vNewResult("C38")
 	defer res.Write(t)
@@ -383,6 +440,7 @@ func TestVerifKeyPaging(t *testing.T) {
 				// may return an error, but no later request may answer from a half-loaded state
 				if o.B > 0 && len(exp) >= 2 && es == gs && !dup {
 					vkProbeFaultyLoad(t, res, c, b.ID, si, o, p, es, expKeys, prefix)
+					vkProbeReloadedWrite(t, res, c, b.ID, si, o, p, es, expKeys, prefix)
 				}
 				switch {
 				case dup:
